@@ -558,4 +558,8 @@ def install(sim: Sim) -> None:
     time.sleep = _sim_sleep
     _real["fcntl.flock"] = fcntl.flock
     fcntl.flock = _sim_flock
+    # POSIX record locks are per process and would never conflict between the threads that stand
+    # for processes here: emulate whole-file lockf() by flock() (per open file description)
+    _real["fcntl.lockf"] = fcntl.lockf
+    fcntl.lockf = lambda fd, cmd, *args: _sim_flock(fd, cmd) if _actor() is not None else _real["fcntl.lockf"](fd, cmd, *args)
     random.seed("simverif-global")
